@@ -15,6 +15,7 @@ import (
 	"errors"
 	"fmt"
 	"io"
+	"math"
 	"net"
 	"sort"
 	"strings"
@@ -422,7 +423,7 @@ func genSession(t *rapid.T, ent typeEntry, c *C15Case, nsess int) C15Session {
 		End:     rapid.SampledFrom([]string{"close", "stop"}).Draw(t, "end"),
 	}
 	if ent.HasConfigure {
-		mode := rapid.SampledFrom([]string{"zero", "zero", "subset", "subset", "subset", "impl", "extra", "extra", "raw", "error"}).Draw(t, "cfgmode")
+		mode := rapid.SampledFrom([]string{"zero", "zero", "subset", "subset", "subset", "impl", "extra", "extra", "raw", "error", "wide", "wide", "wide"}).Draw(t, "cfgmode")
 		if mode == "extra" && unimpl == 0 {
 			mode = "subset" // the full type has nothing it could over-ask for within the valid events
 		}
@@ -447,6 +448,49 @@ func genSession(t *rapid.T, ent typeEntry, c *C15Case, nsess int) C15Session {
 			s.CfgMask = int32(subsetOf(t, "cfgsubset", impl) | x)
 		case "raw":
 			s.CfgMask = rapid.Int32Range(0, int32(validMask)).Draw(t, "cfgraw")
+		case "wide":
+			// the whole int32 range: bits that are no event at all (13..30) and the sign bit,
+			// alone or on top of handled / unhandled events; every bit by a fair coin
+			valid := int32(0)
+			switch rapid.SampledFrom([]string{"none", "handled", "handled", "any"}).Draw(t, "widevalid") {
+			case "handled":
+				valid = int32(subsetOf(t, "cfgsubset", impl))
+				if rapid.Bool().Draw(t, "wideallhandled") {
+					valid = int32(impl)
+				}
+			case "any":
+				valid = int32(subsetOf(t, "cfgsubset", validMask))
+			}
+			switch rapid.SampledFrom([]string{"minus1", "minint", "bit31", "bit31", "high", "high", "coins"}).Draw(t, "widekind") {
+			case "minus1":
+				s.CfgMask = -1 // ^api.EventMask(0), "everything"
+			case "minint":
+				s.CfgMask = math.MinInt32
+			case "bit31":
+				s.CfgMask = math.MinInt32 | valid
+			case "high": // some of the bits 13..30, sign bit clear
+				h := int32(0)
+				for b := 13; b <= 30; b++ {
+					if rapid.Bool().Draw(t, "highbit") {
+						h |= 1 << b
+					}
+				}
+				if h == 0 {
+					h = 1 << rapid.IntRange(13, 30).Draw(t, "onehighbit")
+				}
+				s.CfgMask = h | valid
+			case "coins": // bits 13..31 by fair coins, at least one
+				h := int32(0)
+				for b := 13; b <= 31; b++ {
+					if rapid.Bool().Draw(t, "coin") {
+						h |= int32(uint32(1) << b)
+					}
+				}
+				if h == 0 {
+					h = math.MinInt32
+				}
+				s.CfgMask = h | valid
+			}
 		case "error":
 			s.CfgFail = true
 			s.CfgErr = genErrText(t)
@@ -1018,6 +1062,19 @@ func (cr *caseRun) runSession(k int, s *session) (verdict, string) {
 	impl := ent.Mask
 	cfgClass, wantMask := cfgExpect(ent, sc)
 	classes[cfgClass] = true
+	if ent.HasConfigure && !sc.CfgFail {
+		switch asked := api.EventMask(sc.CfgMask); {
+		case asked == -1:
+			classes["cfgmask:all-ones"] = true
+		case asked < 0:
+			classes["cfgmask:sign-bit"] = true
+		case asked&^validMask != 0:
+			classes["cfgmask:bits-13-30"] = true
+		}
+		if asked := api.EventMask(sc.CfgMask); asked&^validMask != 0 && asked&validMask != 0 && asked&validMask&^impl == 0 {
+			classes["cfgmask:invalid-bits+handled-events-only"] = true
+		}
+	}
 	if k > 0 {
 		classes["restart:"+cfgClass] = true
 		classes["restart-after-end:"+c.Sessions[k-1].End] = true
@@ -1432,9 +1489,9 @@ func maskStr(m api.EventMask) string {
 		n = append(n, evName(e))
 	}
 	if x := m &^ validMask; x != 0 {
-		n = append(n, fmt.Sprintf("invalid(0x%x)", int32(x)))
+		n = append(n, fmt.Sprintf("no-event-bits(0x%x)", uint32(x)))
 	}
-	return fmt.Sprintf("0x%x(%s)", int32(m), strings.Join(n, "|"))
+	return fmt.Sprintf("0x%x(%s)", uint32(m), strings.Join(n, "|"))
 }
 
 func dedup(in []string) []string {
@@ -1636,6 +1693,21 @@ func TestExh_C15(t *testing.T) {
 		for _, e := range unimplEv {
 			runOne(mk(ti, sess(ent.Mask|evbit(e), "close", okReqs)))
 		}
+		// the numeric edges of the int32 mask: bits that are no event, the sign bit, "all ones" -
+		// alone and on top of handled / unhandled events. All must be rejected.
+		hi := api.EventMask(0x7fffe000) // bits 13..30
+		sign := api.EventMask(math.MinInt32)
+		wide := []api.EventMask{-1, sign, sign | ent.Mask, sign | lo, sign | validMask, sign | hi, sign | hi | ent.Mask,
+			1 << 13, 1 << 30, hi, hi | ent.Mask, ent.Mask | 1<<13, ent.Mask | 1<<30, lo | 1<<22, 0x7fffffff, ^(validMask &^ ent.Mask)}
+		if len(unimplEv) > 0 {
+			wide = append(wide, sign|evbit(unimplEv[0]), sign|ent.Mask|evbit(unimplEv[len(unimplEv)-1]), -1&^evbit(unimplEv[0]))
+		}
+		if (ti/4)%3 == 0 { // every third handler set (singletons, complements, the full set and random ones among them)
+			for _, m := range wide {
+				runOne(mk(ti, sess(m, "close", okReqs)))
+			}
+		}
+		runOne(mk(ti, sess(-1, "close"), sess(sign|ent.Mask, "stop"), sess(0, "close", okReqs)))
 		// restart sweep
 		fail := sess(0, "close")
 		fail.CfgFail, fail.CfgErr = true, "exh-configure-failed"
@@ -1652,7 +1724,7 @@ func TestExh_C15(t *testing.T) {
 		}
 	}
 	r.SetExtra("exhaustive", map[string]any{
-		"subdomain": "every generated plugin type (512: 128 handler sets x with/without Configure x with/without Synchronize) x each of the 13 event kinds (succeeding and failing handler); for the types without Synchronize handler: Configure returning 0, the implemented mask, each single implemented event, implemented+each single unimplemented event; per type restart sequences on one stub (3 connections; with Configure: subset -> 0 -> complementary subset, complementary subset -> subset -> implemented mask, rejected -> error -> implemented mask); for the types with Synchronize handler one stub synchronized six times in a row: split -> one message -> cut short after 3 messages -> split with failing handler -> cut short after 1 message -> one message",
+		"subdomain": "every generated plugin type (512: 128 handler sets x with/without Configure x with/without Synchronize) x each of the 13 event kinds (succeeding and failing handler); for the types without Synchronize handler: Configure returning 0, the implemented mask, each single implemented event, implemented+each single unimplemented event, and, for every third handler set, about twenty masks using bits 13..31 (all ones, the sign bit, bits 13..30; alone and on top of handled / unhandled events); per type restart sequences on one stub (3 connections; with Configure: subset -> 0 -> complementary subset, complementary subset -> subset -> implemented mask, rejected -> error -> implemented mask); for the types with Synchronize handler one stub synchronized six times in a row: split -> one message -> cut short after 3 messages -> split with failing handler -> cut short after 1 message -> one message",
 		"types":     len(registry),
 		"cases":     cases,
 		"sessions":  sessions,
